@@ -734,12 +734,8 @@ def rule_policy_in_force(prog, fixture=False):
 
 
 # ---------------------------------------------------------------- R-C16-9
-def rule_occupancy_is_presence(prog, fixture=False):
-    r = RuleResult("R-C16-9", "a drive number is occupied as soon as the table has an entry for it, formatted or not: "
-                   "either is_drive_connected answers false only for an absent key, or no image ever attaches a "
-                   "surface without a configuration (an empty entry would otherwise be handed out again and two "
-                   "surfaces would share a number)", floor=0 if fixture else 1)
-    # producers of empty entries: nullopt pushed into a vector<optional<DriveConfig>>
+def _empty_entry_producers(prog):
+    """(function, node): nullopt pushed into a vector<optional<DriveConfig>>."""
     producers = []
     for fn in prog.functions.values():
         for n in fn.walk():
@@ -752,6 +748,15 @@ def rule_occupancy_is_presence(prog, fixture=False):
                         any((strip_all(a) or {}).get("k") in ("CXXConstructExpr", "CXXTemporaryObjectExpr") and not (strip_all(a) or {}).get("c")
                             for a in args):
                     producers.append((fn, n))
+    return producers
+
+
+def rule_occupancy_is_presence(prog, fixture=False):
+    r = RuleResult("R-C16-9", "a drive number is occupied as soon as the table has an entry for it, formatted or not: "
+                   "either is_drive_connected answers false only for an absent key, or no image ever attaches a "
+                   "surface without a configuration (an empty entry would otherwise be handed out again and two "
+                   "surfaces would share a number)", floor=0 if fixture else 1)
+    producers = _empty_entry_producers(prog)
     for fn in prog.functions.values():
         if fn.name != "is_drive_connected":
             continue
